@@ -25,6 +25,8 @@ type afTxn struct {
 	nprov   int // provisional responses still to send
 	final   bool
 	started bool
+	cseq    string // sequence number of the request
+	cancel  bool   // a CANCEL was sent next to the INVITE
 }
 
 // afResponse builds the backend's answer to the request it observed.
@@ -172,7 +174,7 @@ func scenarioAffinity() int {
 			long = append(long, lc)
 		}
 	}
-	cseqs := 0
+	cseqs, cancels := 0, 0
 	for s := 0; s < nsched && run.Violations() <= 6; s++ {
 		if h := w.Health(); h != "" {
 			run.Violation("proxy died during the run (belongs to C08; the run cannot continue)", map[string]any{"health": h})
@@ -257,7 +259,8 @@ func scenarioAffinity() int {
 				}
 				// sequence numbers over the whole range RFC 3261 allows (0 .. 2**31-1), the ends included
 				cseqs++
-				wire.SetHeader(m, "CSeq", fmt.Sprintf("%d %s", []int64{1, 0, 2147483647, 2147483646, 65536, 4294967, int64(1 + g.R.Intn(1<<31-1)), int64(cseqs)}[cseqs%8], t.method))
+				t.cseq = fmt.Sprint([]int64{1, 0, 2147483647, 2147483646, 65536, 4294967, int64(1 + g.R.Intn(1<<31-1)), int64(cseqs)}[cseqs%8])
+				wire.SetHeader(m, "CSeq", t.cseq+" "+t.method)
 				conns[t.conn].Send(m.Bytes(), t.id)
 				obs, seen := w.Net.WaitCase(t.id, func(o []*wire.Obs) bool { return len(o) >= 1 }, w.BarrierWait)
 				if !seen || !sv.BackendEndpointNames()[obs[0].Ep] || obs[0].Msg == nil {
@@ -285,12 +288,61 @@ func scenarioAffinity() int {
 					}
 					trace = append(trace, fmt.Sprintf("big 183 and at once the final answer for %s (c%d)", t.id, t.conn))
 				}
+				if t.nprov == 0 && t.method == "INVITE" && !t.cancel && t.cseq != "" && bigFirst == "" && g.R.Intn(2) == 0 {
+					// the caller gives up: a CANCEL on the connection of the INVITE, same Via (same branch),
+					// same Call-ID, tags and sequence number. Its 200 comes back on that connection - and so
+					// does the final answer of the INVITE afterwards.
+					t.cancel = true
+					cid := t.id + "c"
+					cm := wire.StdRequest(cid, "CANCEL", fmt.Sprintf("sip:svc%d.verif.test", sidx), "tcp", "placeholder", 0)
+					wire.SetHeader(cm, "Via", fmt.Sprintf("SIP/2.0/TCP %s;branch=z9hG4bKvf%s", t.sentBy, t.id))
+					wire.SetHeader(cm, "From", "<sip:alice@ua.verif.test>;tag=f"+t.id)
+					wire.SetHeader(cm, "Call-ID", t.id+"@vf")
+					wire.SetHeader(cm, "CSeq", t.cseq+" CANCEL")
+					if sv.HasDef {
+						wire.SetHeader(cm, "To", "<tel:+15550111>")
+					}
+					conns[t.conn].Send(cm.Bytes(), cid)
+					cobs, seen := w.Net.WaitCase(cid, func(o []*wire.Obs) bool { return len(o) >= 1 }, w.BarrierWait)
+					if seen && sv.BackendEndpointNames()[cobs[0].Ep] && cobs[0].Msg != nil {
+						crid := cid + "r200f"
+						cresp := afResponse(cobs[0].Msg, 200, cid, crid)
+						if cobs[0].Proto == "udp" {
+							for _, e := range sv.BeUDP {
+								if e.Name == cobs[0].Ep {
+									e.Send(fmt.Sprintf("%s:%d", sv.IP, sv.UDP), cresp.Bytes(), crid)
+								}
+							}
+						} else {
+							for _, l := range sv.BeTCP {
+								if c := l.ConnByID(cobs[0].Conn); c != nil {
+									c.Send(cresp.Bytes(), crid)
+								}
+							}
+						}
+						w.Net.WaitCase(crid, func(o []*wire.Obs) bool { return len(o) >= 1 }, w.BarrierWait)
+						w.Net.Drain()
+						co := w.Net.ForCase(crid)
+						cancels++
+						trace = append(trace, fmt.Sprintf("CANCEL next to %s on c%d, answered 200", t.id, t.conn))
+						if len(co) != 1 || co[0].Proto != "tcp" || co[0].Conn != conns[t.conn].ID || accepted()-acc0 != 0 {
+							var where []string
+							for _, o := range co {
+								where = append(where, fmt.Sprintf("%s conn#%d %s<-%s", o.Ep, o.Conn, o.Local, o.Peer))
+							}
+							run.Violation("the answer to a CANCEL was not written to the connection that carried it", map[string]any{"transaction": t.id, "connection": t.conn, "seen_at": where, "new_inbound_connections_at_driver": accepted() - acc0, "last_steps": trace})
+						}
+					}
+				}
 				if t.nprov > 0 {
 					t.nprov--
 					status = []int{100, 180, 183}[g.R.Intn(3)]
 				} else {
 					t.final = true
 					status = []int{200, 404, 486, 503, 603, 302}[g.R.Intn(6)]
+					if t.cancel {
+						status = 487
+					}
 				}
 				rid := fmt.Sprintf("%sr%d", t.id, status)
 				if t.final {
@@ -419,6 +471,7 @@ func scenarioAffinity() int {
 			run.Violation("the proxy opened a connection towards a client address instead of using the connection the request came on (seen by the egress monitor on the loopback device)", map[string]any{"connection_attempts": dials})
 		}
 	}
+	run.Observe("invites_with_a_cancel_next_to_them", cancels)
 	run.Observe("responses_on_the_right_connection", respOK)
 	run.Observe("schedules", nsched)
 	if respOK < nsched {
